@@ -21,26 +21,30 @@ def rotZ (t : α) (v : V3 α) : V3 α :=
 def rotY (t : α) (v : V3 α) : V3 α :=
   ⟨Trig.cos t * v.x + Trig.sin t * v.z, v.y, (-(Trig.sin t)) * v.x + Trig.cos t * v.z⟩
 
+/-- Python's `x != 0` is numeric (`-0.0 != 0` is False) while the equality of `Float` compares bit patterns: adding zero turns
+    `-0.0` into `0.0` (and nothing else), so that the two agree; on the reals it is the identity -/
+def nz (x : α) : α := x + 0
+
 def gammaOf (axis : V3 α) : α :=
-  if axis.y ≠ 0 then
-    (if axis.x ≠ 0 then
+  if nz axis.y ≠ 0 then
+    (if nz axis.x ≠ 0 then
       -axis.x / Trig.abs axis.x * Trig.asin (axis.y / Trig.sqrt (axis.x*axis.x + axis.y*axis.y))
      else Trig.pi / 2)
   else 0
 
 /-- second alignment angle, computed from the axis after the first alignment -/
 def betaOf (axis1 : V3 α) : α :=
-  if axis1.x ≠ 0 then
+  if nz axis1.x ≠ 0 then
     -axis1.x / Trig.abs axis1.x * Trig.acos (axis1.z / Trig.sqrt (axis1.x*axis1.x + axis1.z*axis1.z))
   else if axis1.z < 0 then Trig.pi
   else 0
 
 def rotateAround (theta : α) (axis vec : V3 α) : V3 α :=
   let gamma : α := gammaOf axis
-  let vec1 := if axis.y ≠ 0 then rotZ gamma vec else vec
-  let axis1 := if axis.y ≠ 0 then rotZ gamma axis else axis
+  let vec1 := if nz axis.y ≠ 0 then rotZ gamma vec else vec
+  let axis1 := if nz axis.y ≠ 0 then rotZ gamma axis else axis
   let beta : α := betaOf axis1
-  let vec2 := if axis1.x ≠ 0 then rotY beta vec1 else if axis1.z < 0 then rotY beta vec1 else vec1
+  let vec2 := if nz axis1.x ≠ 0 then rotY beta vec1 else if axis1.z < 0 then rotY beta vec1 else vec1
   let vec3 := rotZ theta vec2
   let vec4 := rotY (-beta) vec3
   rotZ (-gamma) vec4
